@@ -1,0 +1,99 @@
+//go:build verif
+
+// Contracts and TS 32.297 clause 6.1 specification functions for package cdrFile.
+// Only compiled under the build tag "verif"; read by /verif/govc.
+
+package cdrFile
+
+func verif_forall[T any](f func(T) bool) bool { return true }
+func verif_forall_range(lo, hi int, f func(int) bool) bool {
+	for k := lo; k < hi; k++ {
+		if !f(k) {
+			return false
+		}
+	}
+	return true
+}
+
+// ghost file system used by the assumed os.WriteFile / os.ReadFile contracts
+func verif_fileLen(name string) int          { return 0 }
+func verif_fileByte(name string, k int) byte { return 0 }
+
+func specB2I(b bool) int {
+	if b {
+		return 1
+	}
+	return 0
+}
+
+// specTs: TS 32.297 6.1.1.5/6.1.1.6 - month 4 bits, date 5, hour 5, minute 6, sign 1, hour deviation 5, minute deviation 6
+func specTs(t CdrHdrTimeStamp) uint32 {
+	return uint32(t.MonthLocal)<<28 | uint32(t.DateLocal)<<23 | uint32(t.HourLocal)<<18 | uint32(t.MinuteLocal)<<12 |
+		uint32(t.SignOfTheLocalTimeDifferentialFromUtc)<<11 | uint32(t.HourDeviation)<<6 | uint32(t.MinuteDeviation)
+}
+
+func specBE32(v uint32, i int) byte { return byte(v >> (8 * uint(3-i))) }
+func specBE16(v uint16, i int) byte { return byte(v >> (8 * uint(1-i))) }
+
+// specHdrLen: length of the encoded file header
+func specHdrLen(h CdrFileHeader) int {
+	return 52 + len(h.CDRRouteingFilter) + len(h.PrivateExtension) + specB2I(h.HighReleaseIdentifier == 7) + specB2I(h.LowReleaseIdentifier == 7)
+}
+
+// specHdrFixed: the first 50 octets of the file header (everything before the routeing filter)
+func specHdrFixed(h CdrFileHeader, k int) byte {
+	switch {
+	case k < 4:
+		return specBE32(h.FileLength, k)
+	case k < 8:
+		return specBE32(h.HeaderLength, k-4)
+	case k == 8:
+		return h.HighReleaseIdentifier<<5 | h.HighVersionIdentifier
+	case k == 9:
+		return h.LowReleaseIdentifier<<5 | h.LowVersionIdentifier
+	case k < 14:
+		return specBE32(specTs(h.FileOpeningTimestamp), k-10)
+	case k < 18:
+		return specBE32(specTs(h.TimestampWhenLastCdrWasAppendedToFIle), k-14)
+	case k < 22:
+		return specBE32(h.NumberOfCdrsInFile, k-18)
+	case k < 26:
+		return specBE32(h.FileSequenceNumber, k-22)
+	case k == 26:
+		return byte(h.FileClosureTriggerReason)
+	case k < 47:
+		return h.IpAddressOfNodeThatGeneratedFile[k-27]
+	case k == 47:
+		return h.LostCdrIndicator
+	}
+	return specBE16(h.LengthOfCdrRouteingFilter, k-48)
+}
+
+//@ func (CdrFileHeader).Encoding [C15 C14]
+//@   ensures len(result) == specHdrLen(cdrf)
+//@   ensures forall k int in 0..50 :: result[k] == specHdrFixed(cdrf, k)
+//@   ensures forall k int :: 0 <= k && k < len(cdrf.CDRRouteingFilter) ==> result[50+k] == cdrf.CDRRouteingFilter[k]
+//@   ensures result[50+len(cdrf.CDRRouteingFilter)] == specBE16(cdrf.LengthOfPrivateExtension, 0) && result[51+len(cdrf.CDRRouteingFilter)] == specBE16(cdrf.LengthOfPrivateExtension, 1)
+//@   ensures forall k int :: 0 <= k && k < len(cdrf.PrivateExtension) ==> result[52+len(cdrf.CDRRouteingFilter)+k] == cdrf.PrivateExtension[k]
+//@   ensures cdrf.HighReleaseIdentifier == 7 ==> result[52+len(cdrf.CDRRouteingFilter)+len(cdrf.PrivateExtension)] == cdrf.HighReleaseIdentifierExtension
+//@   ensures cdrf.LowReleaseIdentifier == 7 ==> result[52+len(cdrf.CDRRouteingFilter)+len(cdrf.PrivateExtension)+specB2I(cdrf.HighReleaseIdentifier == 7)] == cdrf.LowReleaseIdentifierExtension
+
+// specRecHdrLen / specRecHdrByte: TS 32.297 6.1.2 - CDR header
+func specRecHdrLen(r CdrHeader) int { return 4 + specB2I(r.ReleaseIdentifier == 7) }
+func specRecHdrByte(r CdrHeader, k int) byte {
+	switch k {
+	case 0:
+		return specBE16(r.CdrLength, 0)
+	case 1:
+		return specBE16(r.CdrLength, 1)
+	case 2:
+		return uint8(r.ReleaseIdentifier)<<5 | r.VersionIdentifier
+	case 3:
+		return uint8(r.DataRecordFormat)<<5 | uint8(r.TsNumber)
+	}
+	return r.ReleaseIdentifierExtension
+}
+
+//@ func (CdrHeader).Encoding [C15 C14]
+//@   ensures len(result) == specRecHdrLen(header)
+//@   ensures forall k int in 0..5 :: k < specRecHdrLen(header) ==> result[k] == specRecHdrByte(header, k)
